@@ -106,6 +106,7 @@ func loadProgramOverlay(repoDir string, cfg Config, overlay map[string][]byte) (
 	var tmp string
 	if cfg.Vectors {
 		var err error
+		sweepStaleScratch()
 		tmp, err = os.MkdirTemp("", "zapxlint-stub-")
 		if err != nil {
 			return nil, err
@@ -301,4 +302,17 @@ func (p *Program) NamedType(name string) *types.Named {
 	}
 	n, _ := obj.Type().(*types.Named)
 	return n
+}
+
+// sweepStaleScratch removes scratch directories that an aborted earlier run of
+// this tool left behind (they are normally removed when the load returns).
+func sweepStaleScratch() {
+	for _, pat := range []string{"zapxlint-stub-*", "zapxlint-patch-*"} {
+		ms, _ := filepath.Glob(filepath.Join(os.TempDir(), pat))
+		for _, m := range ms {
+			if fi, err := os.Stat(m); err == nil && time.Since(fi.ModTime()) > 30*time.Minute {
+				os.RemoveAll(m)
+			}
+		}
+	}
 }
